@@ -1,51 +1,149 @@
-"""Command line driver (development use): verify selected functions."""
+"""Generation + discharge driver.
+
+Verification conditions are generated per function in worker processes (hard
+time limit per function: an engine hang becomes UNDECIDED, never a verdict);
+obligations travel as SMT-LIB text and are discharged by z3 / cvc5 processes."""
 from __future__ import annotations
-import sys, time, os, traceback
-import z3
-from .contracts import Registry
-from .engine import Engine, Unsupported
-from . import solve
+import multiprocessing as mp
+import os
+import sys
+import time
+import traceback
+
+ROOT = os.path.dirname(os.path.dirname(os.path.abspath(__file__)))
+GEN_TIMEOUT_S = int(os.environ.get("PYVC_GEN_TIMEOUT_S", "600"))
 
 
-def verify_functions(repo, keys=None, contracts_dir=None, both=False, verbose=True):
-    contracts_dir = contracts_dir or os.path.join(os.path.dirname(os.path.dirname(__file__)), "contracts")
-    reg = Registry().load_dir(contracts_dir)
-    eng = Engine(reg, repo)
-    undecided = []
+class Ob:
+    """Serializable obligation."""
+
+    def __init__(self, name, kind, props, func, line, smt2, trivial):
+        self.name = name
+        self.kind = kind
+        self.props = props
+        self.func = func
+        self.line = line
+        self.smt2 = smt2
+        self.trivial = trivial
+        self.status = None
+        self.backend = None
+        self.time = 0.0
+        self.model = None
+        self.cvc5 = None
+
+
+def _gen_one(args):
+    repo, key, contracts_dir = args
+    import z3
+    from .contracts import Registry
+    from .engine import Engine, Unsupported
+    from . import solve
+    from . import source as S
+    t0 = time.time()
+    info = {"function": key}
+    obs = []
+    try:
+        reg = Registry().load_dir(contracts_dir)
+        eng = Engine(reg, repo)
+        eng.canaries = True
+        fc = reg.funcs[key]
+        eng.verify(fc)
+        ax = eng.global_axioms()
+        for ob in eng.obligations:
+            triv = z3.is_true(ob.goal)
+            text = "" if triv else solve.to_smt2(ax, ob.hyps, ob.goal)
+            obs.append(Ob(ob.name, ob.kind, ob.props, ob.func, ob.line, text,
+                          triv))
+        info.update(status="under contract", paths=fc.npaths, exits=fc.exits,
+                    source_hash=fc.source_hash,
+                    assumptions=sorted(eng.used_assumptions),
+                    gen_s=round(time.time() - t0, 2))
+    except Unsupported as e:
+        info["status"] = f"UNDECIDED: {e}"
+        info["undecided"] = str(e)
+    except S.SourceError as e:
+        info["status"] = f"UNDECIDED: {e}"
+        info["undecided"] = str(e)
+    except Exception:  # noqa: BLE001
+        info["status"] = "ERROR"
+        info["error"] = traceback.format_exc()[-2000:]
+    return info, obs
+
+
+def generate(repo, keys, contracts_dir=None, procs=None):
+    """keys: list of contract keys to verify.  Returns (infos, obligations)."""
+    contracts_dir = contracts_dir or os.path.join(ROOT, "contracts")
+    jobs = [(repo, k, contracts_dir) for k in keys]
+    infos, obs = [], []
+    if not jobs:
+        return infos, obs
+    procs = procs or min(16, os.cpu_count() or 4, len(jobs))
+    ctx = mp.get_context("fork")
+    pool = ctx.Pool(procs)
+    try:
+        asyncs = [(j, pool.apply_async(_gen_one, (j,))) for j in jobs]
+        deadline = time.time() + GEN_TIMEOUT_S
+        for j, a in asyncs:
+            try:
+                info, o = a.get(timeout=max(1, deadline - time.time()))
+            except mp.TimeoutError:
+                info, o = ({"function": j[1],
+                            "status": "UNDECIDED: generation timed out",
+                            "undecided": "generation timed out"}, [])
+            infos.append(info)
+            obs.extend(o)
+    finally:
+        pool.terminate()
+        pool.join()
+    return infos, obs
+
+
+def select_keys(reg, pid=None, substrings=None):
+    keys = []
     for key, fc in reg.funcs.items():
-        if keys and not any(k in key for k in keys):
-            continue
         if fc.assumed or not fc.verify:
             continue
-        t0 = time.time()
-        try:
-            eng.verify(fc)
-            if verbose:
-                print(f"[gen] {key}: paths={fc.npaths} exits={fc.exits} {time.time()-t0:.1f}s")
-        except Unsupported as e:
-            undecided.append((key, str(e)))
-            if verbose:
-                print(f"[UNDECIDED] {key}: {e}")
-    t0 = time.time()
-    solve.discharge(eng.obligations, eng.global_axioms(), both=both)
-    if verbose:
-        print(f"[solve] {len(eng.obligations)} obligations in {time.time()-t0:.1f}s")
-    return eng, undecided
+        if pid is not None and pid not in fc.props:
+            continue
+        if substrings and not any(s in key for s in substrings):
+            continue
+        keys.append(key)
+    return keys
 
 
 def main():
+    from .contracts import Registry
+    from . import solve
     repo = os.environ.get("PYVC_REPO", "/repo")
-    keys = sys.argv[1:]
-    eng, und = verify_functions(repo, keys)
+    subs = sys.argv[1:]
+    reg = Registry().load_dir(os.path.join(ROOT, "contracts"))
+    keys = select_keys(reg, substrings=subs)
+    t0 = time.time()
+    infos, obs = generate(repo, keys)
+    for i in infos:
+        if i.get("status") == "under contract":
+            print(f"[gen] {i['function']}: paths={i['paths']} exits={i['exits']} "
+                  f"{i['gen_s']}s")
+        else:
+            print(f"[{i['status'][:9]}] {i['function']}: "
+                  f"{i.get('undecided') or i.get('error')}")
+    t1 = time.time()
+    real = [o for o in obs if o.kind != "canary"]
+    solve.discharge_text(real)
+    print(f"[solve] {len(real)} obligations in {time.time()-t1:.1f}s "
+          f"(gen {t1-t0:.1f}s)")
     bad = 0
-    for ob in eng.obligations:
+    for ob in real:
         if ob.status != "unsat":
             bad += 1
-            print(f"  {ob.status:8s} {ob.name}  props={ob.props} backend={ob.backend} t={ob.time:.2f}")
+            print(f"  {ob.status:8s} {ob.name}  props={ob.props} "
+                  f"backend={ob.backend} t={ob.time:.2f}")
             if ob.model and os.environ.get("PYVC_MODEL"):
                 for k, v in sorted(ob.model.items()):
                     print(f"        {k} = {v}")
-    print(f"obligations={len(eng.obligations)} not-discharged={bad} undecided-functions={len(und)}")
+    und = [i for i in infos if i.get("status") != "under contract"]
+    print(f"obligations={len(real)} not-discharged={bad} "
+          f"undecided-functions={len(und)}")
 
 
 if __name__ == "__main__":
